@@ -978,6 +978,11 @@ bool Interpret::declareFun(ASTNode const & n) // (const char* fname, const vec<S
     for (int i = 1; i < args.size(); i++)
         args2.push(args[i]);
 
+    if (args2.size() > 0 and not logic->hasUFs()) {
+        // e.g. QF_LRA: the arithmetic solvers would treat every application as an unrelated variable
+        notify_formatted(true, "uninterpreted function %s: the logic has no uninterpreted functions", fname);
+        return false;
+    }
     SymRef rval = logic->declareFun(fname, rsort, args2);
 
     if (rval == SymRef_Undef) {
